@@ -738,6 +738,14 @@ Definition parse_kernel (ls : list line) : option (header * list pblock) :=
       end
   end.
 
+(** A trace directory: kernelslist.g names kernel files (Memcpy entries carry no
+    file); benchmark.BenchmarkBuilder calls ReadTrace on each of them in turn.
+    ReadTrace keeps nothing between calls (its only package-level variable, the
+    scanner, is re-created from the file at the start of every call), so the
+    result for a directory is the reader applied to each file on its own. *)
+Definition parse_dir (files : list (list line)) : list (option (header * list pblock)) :=
+  map parse_kernel files.
+
 (* ------------------------------------------------------------------ *)
 (** * Checker for the correspondence harness *)
 
